@@ -257,6 +257,7 @@ inductive Call
   | getToken (req : Bool) (name : Key) (attrs : List (Key × Option Nat))
   /-- `TextMessagingService.as_bytes()` on a kept object: (more headers follow, acknowledged, reserved, control, type bits, rest) -/
   | tmsAsBytes (more ack res ctl : Bool) (ty : Nat) (body : Bytes)
+deriving DecidableEq
 
 inductive Out
   | bits (b : Bits)
@@ -422,6 +423,43 @@ def invB (s : S) : Bool :=
   && s.burstBits == init.burstBits && s.csbkParams == init.csbkParams && s.dhPadding == init.dhPadding
   && s.soReserved == init.soReserved && s.rcpSettings == init.rcpSettings
   && s.tokReq == init.tokReq && s.tokAns == init.tokAns && s.attrDefs == init.attrDefs
+
+/-! ## a "same as last time" shortcut in front of the entry points (NOT in the code; for the theorems about memo keys)
+
+A calculator / codec that remembers its last call and hands out the remembered result when the next call "is the
+same" adds hidden state: the remembered pair.  What "the same" means is the *key* the shortcut compares
+(`data != self._last_data` compares what `bitarray.__eq__` sees).  Props/C19 proves: such a shortcut is invisible in
+every history iff the key determines the result, and that the natural keys of a `bitarray` argument (`==` / `to01()`,
+`tobytes()`, `ba2int()`) do not. -/
+
+/-- one call on (hidden state, remembered key and result) -/
+def memoStep {κ : Type} [DecidableEq κ] (key : Call → κ) (sm : S × Option (κ × Out)) (c : Call) : (S × Option (κ × Out)) × Out :=
+  match sm.2 with
+  | some (k, o) =>
+    if key c = k then (sm, o)                                             -- "same as last time": the register is not touched
+    else ((( step sm.1 c).1, some (key c, (step sm.1 c).2.1)), (step sm.1 c).2.1)
+  | none => (((step sm.1 c).1, some (key c, (step sm.1 c).2.1)), (step sm.1 c).2.1)
+
+def memoRun {κ : Type} [DecidableEq κ] (key : Call → κ) : S × Option (κ × Out) → List Call → List Out
+  | _, [] => []
+  | sm, c :: cs => (memoStep key sm c).2 :: memoRun key (memoStep key sm c).1 cs
+
+/-- apply `f` to the bit buffer (and bit order) of a CRC call -/
+def mapCrcData (f : Bits → Bool → Bits × Bool) : Call → Call
+  | .crcShared k d l => .crcShared k (f d l).1 (f d l).2
+  | .crcNew cfg t d l => .crcNew cfg t (f d l).1 (f d l).2
+  | .crcKept cfg t d l => .crcKept cfg t (f d l).1 (f d l).2
+  | c => c
+
+/-- what `bitarray.__eq__`, `to01()`, `tolist()` and iteration see of the argument: the 0/1 values, not the bit order -/
+def keyBitValues : Call → Call := mapCrcData (fun d _ => (d, false))
+
+/-- what `tobytes()` sees: the buffer octets (pad bits are zero); how many bits of the last octet are used is lost -/
+def keyOctets : Call → Call := mapCrcData (fun d l => (d ++ List.replicate ((8 - d.length % 8) % 8) false, l))
+
+/-- what `ba2int()` sees: the number; the length is lost (leading zeros of a big-endian, trailing of a little-endian array) -/
+def keyInt : Call → Call :=
+  mapCrcData (fun d l => (if l then (d.reverse.dropWhile (· == false)).reverse else d.dropWhile (· == false), l))
 
 /-! ## the code before the repairs (for the counter-examples) -/
 
